@@ -18,9 +18,9 @@ META = {
     "assumptions": ["conditions inside parts are from the well-typed alphabet of mc.gen (their leaf meanings "
                     "are C01's business)"],
     "bounds": {
-        "quick": {"paths": "length<=1 over 42 parts, length 2 over a 20-part sub-alphabet, length 3 over a 7-part sub-alphabet",
+        "quick": {"paths": "length<=1 over 42 parts, length 2 over a 20-part sub-alphabet, length 3 over a 7-part sub-alphabet, length 4 over {'a', 0, map, list, map-or-list}",
                   "documents": "F-struct(4) + F-type flat/two-level + F-deep (asymmetric 3-4 level documents)"},
-        "thorough": {"paths": "length<=2 over 42 parts; length 3 over a 12-part and a 7-part sub-alphabet; length 4 over the 7-part sub-alphabet",
+        "thorough": {"paths": "length<=2 over 42 parts; length 3 over a 12-part and a 7-part sub-alphabet; length 4 over the 7-part sub-alphabet; length 5 and 6 over {'a', map, list, map-or-list} on F-deep",
                      "documents": "F-struct(4) + F-type + F-deep for length<=2 and for length 3 over 12 parts; F-struct(5) + F-deep for length 3 over 7 parts; F-deep + F-type for length 4"},
     },
 }
@@ -29,16 +29,24 @@ META = {
 def path_list(tier):
     if tier == "quick":
         ps = list(gen.paths(1, gen.PARTS)) + [p for p in gen.paths(2, gen.PARTS20) if len(p[1]) == 2]
-        return [(p, "s4t") for p in ps] + [(p, "deep") for p in gen.paths(3, gen.PARTS7) if len(p[1]) == 3]
+        return [(p, "s4t") for p in ps] + [(p, "deep") for p in gen.paths(3, gen.PARTS7) if len(p[1]) == 3] + \
+            [(p, "deeponly") for p in gen.paths(4, LONG5) if len(p[1]) == 4]
     ps = [(p, "s4t") for p in gen.paths(2, gen.PARTS)]
     # length 3: the 7-part sub-alphabet on all of F-struct(5); the 12-part one on F-struct(4) + F-type + F-deep
     ps += [(p, "s5") for p in gen.paths(3, gen.PARTS7) if len(p[1]) == 3]
     ps += [(p, "s4t") for p in gen.paths(3, gen.PARTS12) if len(p[1]) == 3]
     ps += [(p, "deep") for p in gen.paths(4, gen.PARTS7) if len(p[1]) == 4]
+    ps += [(p, "deeponly") for p in gen.paths(6, LONG5[:1] + LONG5[2:]) if len(p[1]) in (5, 6)]
     return ps
 
 
+# long paths (4 parts at the quick tier, 5 and 6 at the thorough one): two keys and the three bare parts
+LONG5 = [gen.PRIMS[0], gen.PRIMS[3]] + gen.BARE
+
+
 def family(name):
+    if name == "deeponly":
+        return gen.docs_deep()
     if name == "s4t":
         return gen.docs_struct(4) + gen.docs_type2() + gen.docs_deep()
     if name == "deep":
